@@ -1204,7 +1204,7 @@ func genFacts(p *pkgInfo, repo, out string) {
 	b.WriteString("]\n\n")
 
 	// go statements and sync.Pool Get/Put sites with enclosing function
-	var gos, pools, assigns []string
+	var gos, pools, assigns, ringRefs []string
 	var fnames []string
 	for n := range p.funcs {
 		fnames = append(fnames, n)
@@ -1219,6 +1219,11 @@ func genFacts(p *pkgInfo, repo, out string) {
 			switch x := n.(type) {
 			case *ast.GoStmt:
 				gos = append(gos, fn)
+			case *ast.SelectorExpr:
+				// every mention of the index-buffer ring and of the channel between the stages
+				if x.Sel.Name == "buffers" || x.Sel.Name == "buffersOffset" || x.Sel.Name == "indexChans" {
+					ringRefs = append(ringRefs, fn+":"+x.Sel.Name)
+				}
 			case *ast.CallExpr:
 				if se, ok := x.Fun.(*ast.SelectorExpr); ok && (se.Sel.Name == "Get" || se.Sel.Name == "Put") {
 					pools = append(pools, fn+":"+src(se.X)+"."+se.Sel.Name)
@@ -1246,6 +1251,7 @@ func genFacts(p *pkgInfo, repo, out string) {
 	}
 	fmt.Fprintf(&b, "def goStatements : List String := %s\n\n", leanStrList(gos))
 	fmt.Fprintf(&b, "def poolSites : List String := %s\n\n", leanStrList(pools))
+	fmt.Fprintf(&b, "def ringRefs : List String := %s\n\n", leanStrList(ringRefs))
 	fmt.Fprintf(&b, "def parseAssignments : List String := %s\n\n", leanStrList(assigns))
 
 	// struct fields
